@@ -179,7 +179,9 @@ func Gen(r *core.Rand, o Opts) *History {
 		}
 		suf := core.Pick(r, suffixes)
 		date := core.Pick(r, dates)
-		key := fmt.Sprintf("%06d|%s|%s", origin, suf, date)
+		// two origin times that differ by less than a second (hundredths of a minute, 0.6 s apart) truncate to the same
+		// start second and would give two trips of one feed the same journal identity: such a history is ambiguous
+		key := fmt.Sprintf("%d|%s|%s", origin*6/10, suf, date)
 		if usedKey[key] {
 			continue
 		}
